@@ -13,8 +13,10 @@ CLAIMED = {
          'the never-crashed reference. Also generated: crash storms, a script prologue on the fresh wrapper (summary / cost / '
          'export / no_grad inference before loading), save / load of a checkpoint into the live model, training bursts, '
          'corner values (threshold masks, huge coefficients, collapsed clip values, ...), aborted forwards. The reference '
-         'replica runs first and is recorded, so the subject cannot reach it through shared state. A clean batch is '
-         'evidence, not proof.',
+         'replica runs first and is recorded, so the subject cannot reach it through shared state. Also: both resume orders '
+         '(configuration re-issued before / after the load), other models of the same process built and run in between '
+         '(bystanders), MPS quantizer variants incl. per-layer qinfo entries, hardware cost models (gap8, mpic). A clean '
+         'batch is evidence, not proof.',
     note='Trusted: torch (autograd, state_dict, save/load). Restart protocol "config is code, state is data" '
          '(MPS temperature is deliberately not re-issued: the code registers it as a buffer). Volatile in-flight state '
          '(pending grads, autograd graphs on sampled coefficients) is dropped on the reference at a crash too. '
@@ -30,7 +32,8 @@ CLAIMED = {
          'reference; the final probe reads cost and summary before any forward pass; two consecutive exports must be '
          'identical (structure, weights, outputs). Cost reads separated only by calls that cannot change the cost must agree '
          'on either replica (catches impure-but-idempotent observers). Observer storms, looks at the model right after an '
-         'interrupted forward, user-held specification objects re-used across switches.',
+         'interrupted forward, user-held specification objects re-used across switches, other models of the same process '
+         'built, trained and exported in between (bystanders), hardware cost models (gap8, mpic) in the switches.',
     note='Trusted: torch. The torch RNG is re-seeded before every op on both replicas (RNG consumption by an observer '
          'is not flagged). Buffer-only differences without observable effect are counted, not flagged. An observer '
          'that raises is caught by the simulated loop (whether export succeeds is not this property).',
@@ -43,7 +46,9 @@ CLAIMED = {
          'reference model. Invariants after every op: nas/net parameters partition parameters() by identity; '
          'requires_grad equals the reference; frozen masks are never trainable, never receive gradients and never '
          'change value; samplers behave as the reference options say under a fixed torch seed; non-trainable groups '
-         'get no gradient. The statement asks for closure under reachability; the simulator samples and reports the '
+         'get no gradient. The first runs of every batch enumerate ALL control-call sequences up to length 2 (thorough: 3) '
+         'over the alphabet of the statement per method, followed by a training step of loss + cost; beyond that the '
+         'statement asks for closure under reachability up to length 4, which the simulator samples: it reports the '
          'distinct abstract states/transitions reached.',
     note='Trusted: torch, the ~60-line reference model. Frozen set = PITFrozen* instances, cross-checked against the '
          'set derived from the architecture spec.',
@@ -55,7 +60,9 @@ CLAIMED = {
          '0-bit, shared quantizers) and SuperNet (2-8 branches). Forward hooks capture the coefficients as used in each '
          'forward pass: probability vector; one-hot at the raw arg-max in eval mode and in hard non-Gumbel training; '
          'one-hot under hard Gumbel; untouched when sampling is disabled. After eval forwards and at the end summary() '
-         'and export() are compared with the raw arg-max. One known finding (D7) is skipped narrowly and counted.',
+         'and export() are compared with the raw arg-max. Per-channel matrices up to 8 x 16; checkpoints written under '
+         'other options than the ones in force when they are loaded back (after a load the reference adopts the options '
+         'the model itself reports). One known finding (D7) is skipped narrowly and counted.',
     note='Trusted: torch, forward hooks. Ties (gap < 0.05) are skipped and counted. Output equality is C02/C03, not '
          'checked here. Option updates always pass every option (partial updates are C11).',
     tech='deterministic simulation: seeded option/mode/coefficient histories with abort/crash faults, monitored samplers vs arg-max reference',
@@ -65,7 +72,8 @@ CLAIMED = {
          'while lookup tasks (direct lookups, real PIT constructions and cost reads, built-in specs re-registered '
          'in permuted order) run during and after registration; every answer is compared with an order-free '
          'reference dictionary and, over the recorded history, with the same registrations replayed in library '
-         'and reverse order. The order space per layer type (<=24 orders of 4 patterns) is sampled, not enumerated; '
+         'and reverse order. User constraints are plain functions, lambdas, functools.partial objects, callable '
+         'instances or bound methods; other specification objects are filled and queried in between. The order space per layer type (<=24 orders of 4 patterns) is sampled, not enumerated; '
          'the evidence reports how many distinct (pattern set, order) pairs were seen.',
     note='Trusted: torch, the reference dictionary (40 lines), the README reading that >=2 matching constrained '
          'patterns is unspecified. Each pattern is registered at most once per specification.',
@@ -74,7 +82,9 @@ CLAIMED = {
  'C19': dict(
     text='Seeded exploration of virtual-time training timelines: the epoch clock handed to DUCCIO is driven by the '
          'simulator and suffers repeats, skips, backward jumps (resume from an older checkpoint), late first call and '
-         'overshoot; costs of a stub or real PIT model move between calls. Every call is checked against the '
+         'overshoot; costs of a stub or real PIT / MPS / SuperNet model move between calls; some calls die inside the '
+         'regularizer (the model\'s get_cost raises at the k-th read) and are retried; further regularizer objects of the '
+         'same process are called in between. Every call is checked against the '
          'closed-form reference (value, per-metric effective strength read as gradient), and the recorded history is '
          'checked for monotonicity in the epoch, 1% start, saturation at half schedule and never exceeding the final '
          'strength; BaseRegularizer is checked as strength x cost.',
